@@ -786,10 +786,18 @@ class World(object):
             k.spin_broken = True
 
     def digest(self):
+        """SHA-256 of the event log. Numbers the real OS hands out (port of a
+        socket bound to port 0, descriptor numbers, scratch paths) are masked:
+        they do not influence the schedule"""
         import hashlib
+        import re
         h = hashlib.sha256()
+        mask = re.compile(r'"(fd|port)": \d+|csim-\w+')
         for e in self.sim.log:
-            h.update(repr(e).encode('utf8'))
+            s = repr(e)
+            if '"fd"' in s or '"port"' in s or 'csim-' in s:
+                s = mask.sub('<os>', s)
+            h.update(s.encode('utf8'))
             h.update(b'\n')
         h.update(repr((self.sim.steps, self.sim.ncalls,
                        round(self.sim.now, 9))).encode())
